@@ -43,6 +43,11 @@ JudgeEnc(v, r) ==
       p == v.p IN
   IF r.panic # "" THEN pr \o ":encoder-panicked"
   ELSE IF r.echo # p THEN "TOOL:harness-echo-differs"
+  ELSE IF v.bad = 1 THEN
+    \* a value the protocol cannot express (QoS 0 with a packet identifier): the encoder may refuse it,
+    \* but a refusal leaves the buffer as it was
+    (IF r.ok = 0 /\ r.grew # 0 THEN "C09:failed-encode-left-bytes-behind"
+     ELSE IF r.ok = 1 /\ r.pre_ok = 0 THEN "C09:encode-disturbed-bytes-already-in-the-buffer" ELSE "ok")
   ELSE IF r.ok = 0 THEN
     (IF r.grew # 0 THEN pr \o ":failed-encode-left-bytes-behind"
      ELSE IF v.lim = 0 THEN "C01:representable-packet-not-encoded"
